@@ -697,7 +697,8 @@ def obs_nifti(case):
         try:
             best0 = hc.get_best_affine()
         except (ValueError, HeaderDataError) as e:
-            o['refused'] = 'get_best_affine:' + type(e).__name__ + ':' + str(e)[:40]
+            o['refused'] = 'get_best_affine:' + type(e).__name__     # outcome class = site + exception type
+            o['refused_msg'] = str(e)[:60]                            # diagnostic only, never compared
             return o
         E = roundtrip_exact(A, ver)
         c1 = my_allclose(A, best0, rtol, atol)
@@ -720,7 +721,8 @@ def obs_nifti(case):
                 o.update(c1=c1, c2=c1 if c1 else my_allclose(A, E, rtol, atol), best0=best0, expected=E, hashdr=True)
             loaded, raw = save_load(K, img, case.get('via'))
         except (ValueError, HeaderDataError) as e:
-            o['refused'] = 'save_load:' + type(e).__name__ + ':' + str(e)[:40]
+            o['refused'] = 'save_load:' + type(e).__name__
+            o['refused_msg'] = str(e)[:60]
             return o
     hb = raw['header'] if 'header' in raw else raw['image']
     a0, a1, p0, p1 = block_offsets(H)
@@ -831,7 +833,7 @@ def obs_hdr(case):
                 r['Q'], r['qc'] = np.array(Q), int(qc)
             except ValueError as e:
                 r['Q'], r['qc'] = None, None
-                r['exc'] = str(e)[:60]
+                r['exc'] = type(e).__name__                          # outcome class = exception type
             r['best_is_sform'] = same_bits(h.get_best_affine(), r['S'])
         out[ver] = r
     return out
@@ -900,7 +902,7 @@ def obs_hist(case):
                 r['Q'] = np.array(h.get_qform())
             except ValueError as e:
                 r['Q'] = None
-                r['exc'] = str(e)[:60]
+                r['exc'] = type(e).__name__                          # outcome class = exception type
             try:
                 r['best'] = np.array(h.get_best_affine())
             except ValueError:
@@ -1039,7 +1041,8 @@ def obs_imgq(case):
         try:
             img.set_qform(A, code=case['qcode'])
         except ValueError as e:
-            o['refused'] = 'set_qform:' + str(e)[:40]
+            o['refused'] = 'set_qform:' + type(e).__name__
+            o['refused_msg'] = str(e)[:60]
             return o
         o['at_save'] = np.array(img.affine)
         loaded, raw = save_load(K, img)
